@@ -150,11 +150,13 @@ def linear_and_filters(ctx, n_cases):
                 ctx.fail("oracle", "convolve is not linear (trim %s)" % trim, inp)
         lo, hi = fs * 0.05, fs * 0.2
         F = nap.TsdFrame(t, np.stack([x, y], 1), columns=["u", "v"], time_support=ep)
+        tb = rng.choice([0.02, 0.05, 0.08, 0.15, 0.06, 0.4, 0.1, 0.3])      # kernel half-widths of both parities
         for mode in ("sinc", "butter"):
-            filt = dict(lowpass=lambda z: nap.apply_lowpass_filter(z, lo, fs, mode=mode),
-                        highpass=lambda z: nap.apply_highpass_filter(z, lo, fs, mode=mode),
-                        bandpass=lambda z: nap.apply_bandpass_filter(z, (lo, hi), fs, mode=mode),
-                        bandstop=lambda z: nap.apply_bandstop_filter(z, (lo, hi), fs, mode=mode))
+            kwf = dict(transition_bandwidth=tb) if mode == "sinc" else {}
+            filt = dict(lowpass=lambda z: nap.apply_lowpass_filter(z, lo, fs, mode=mode, **kwf),
+                        highpass=lambda z: nap.apply_highpass_filter(z, lo, fs, mode=mode, **kwf),
+                        bandpass=lambda z: nap.apply_bandpass_filter(z, (lo, hi), fs, mode=mode, **kwf),
+                        bandstop=lambda z: nap.apply_bandstop_filter(z, (lo, hi), fs, mode=mode, **kwf))
             res = {}
             for name, f in filt.items():
                 ctx.count("filter:%s:%s" % (mode, name))
